@@ -28,6 +28,10 @@ CHECKS = {
    "SoyRegistry.tla models registry construction, template lookup and the error-recovery path (TLC: RecoveryTotal holds for the reference design and is broken by the two named deviations that the pinned code had); SoyExprCases' Total invariant shows the expression oracle is total on the ill-typed operator/function grids, which are replayed - together with every directive x arity x value class, every command x value class, malformed globals files, range steps, duplicate template names and failures at call depth 1..4, and generated bundles with arbitrary JSON data - through Renderer.Execute / EvalExpr / ParseGlobals in worker subprocesses with a deadline and an address-space cap",
    "only the return obligation is judged (result or error, no panic, no hang); hangs must reproduce alone in a fresh worker; unbounded-but-finite work (huge ranges) is excluded",
    "TLA+ model of the recovery path + TLC-enumerated ill-typed grids replayed on the real entry points in isolated workers", "§5 C06"),
+ "C12": ("fault_enumeration",
+   "C12Model.tla (extends the reference interpreter SoyExec, whose writer component carries a fault plan) is model-checked over every fault plan of small programs (WriterLatch, PrefixOk, OkMeansComplete, ...; the deviation write_error_dropped must be caught and its counterexample is replayed); on the real code every write-call index and every byte capacity of the fault-free run of each template (systematic site families, features.soy, generated bundles) is injected with dead / fail-once / short-write writers; sampled cap-plans are validated against the model by TLC (C12Trace)",
+   "write segmentation is never compared; bytes accepted after a recovering writer's failure are not judged; M3 restricted to ASCII programs",
+   "TLA+ writer/fault-plan model checked by TLC + exhaustive fault enumeration on the real renderer + TLC trace validation of sampled faulted runs", "§5 C12"),
 }
 
 NOT_YET = {
